@@ -265,6 +265,81 @@ theorem forest_ne_nil {N : Nat} (h : 0 < N) : forest N ≠ [] := by
   obtain ⟨k, hk⟩ := forest_cover (show 0 < N from h)
   intro hc; rw [hc] at hk; simp at hk
 
+/-! ### The forest in bit form -/
+
+theorem bitSet_top {k m : Nat} (hm : m < 2^(k+1)) : bitSet m k = decide (2^k ≤ m) := by
+  have hp := two_pow_succ k
+  have hpos := two_pow_pos k
+  have hlt : m / 2^k < 2 := (Nat.div_lt_iff_lt_mul hpos).2 (by omega)
+  by_cases h : 2^k ≤ m
+  · have : 0 < m / 2^k := Nat.div_pos h hpos
+    simp [bitSet, h]; omega
+  · have : m / 2^k = 0 := Nat.div_eq_of_lt (by omega)
+    simp [bitSet, h, this]
+
+theorem div_add_pow {k h m' : Nat} (hh : h ≤ k) : (2^k + m') / 2^h = 2^(k-h) + m' / 2^h := by
+  have hpos := two_pow_pos h
+  have e : 2^k = 2^(k-h) * 2^h := by rw [← Nat.pow_add]; congr 1; omega
+  rw [e, Nat.add_comm, Nat.add_mul_div_right _ _ hpos, Nat.add_comm]
+
+theorem bitSet_add_pow {k h m' : Nat} (hh : h < k) : bitSet (2^k + m') h = bitSet m' h := by
+  have e : 2^(k-h) = 2 * 2^(k-h-1) := by
+    rw [← two_pow_succ]; congr 1; omega
+  simp only [bitSet, div_add_pow (Nat.le_of_lt hh), e]
+  congr 1; omega
+
+/-- the forest in bit form: one tree per set bit of the leaf count, highest bit first; the tree for
+bit `h` ends at the last leaf of the leaves counted by the bits `≥ h` -/
+theorem forestFrom_bits (k : Nat) : ∀ a m, m < 2^k →
+    forestFrom k (a * 2^k) m
+      = ((List.range k).reverse.filter (bitSet m)).map
+          (fun h => (a * 2^k + m / 2^(h+1) * 2^(h+1) + 2^h - 1, h)) := by
+  induction k with
+  | zero => intro a m _; simp [forestFrom]
+  | succ k ih =>
+    intro a m hm
+    have hp := two_pow_succ k
+    have hpos := two_pow_pos k
+    have hA : a * 2^(k+1) = (2*a) * 2^k := by rw [hp]; ac_rfl
+    rw [forestFrom, List.range_succ, List.reverse_append, List.reverse_singleton, List.singleton_append,
+      List.filter_cons, bitSet_top hm]
+    by_cases hb : 2^k ≤ m
+    · simp only [hb, decide_true, if_true, List.map_cons]
+      have hdiv0 : m / 2^(k+1) = 0 := Nat.div_eq_of_lt hm
+      have hbase : a * 2^(k+1) + 2^k = (2*a+1) * 2^k := by rw [Nat.add_mul]; omega
+      rw [hdiv0, hbase, ih (2*a+1) (m - 2^k) (by omega)]
+      obtain ⟨m', rfl⟩ : ∃ m', m = 2^k + m' := ⟨m - 2^k, by omega⟩
+      have e2 : 2^k + m' - 2^k = m' := by omega
+      rw [e2]
+      congr 1
+      · simp only [Nat.zero_mul, Nat.add_zero]; congr 1; omega
+      · have hfil : (List.range k).reverse.filter (bitSet (2^k + m')) = (List.range k).reverse.filter (bitSet m') := by
+          apply List.filter_congr
+          intro h hh
+          have : h < k := by simpa using hh
+          exact bitSet_add_pow this
+        rw [hfil]
+        apply List.map_congr_left
+        intro h hh
+        have hk : h < k := by
+          have := (List.mem_filter.1 hh).1
+          simpa using this
+        have e3 : (2^k + m') / 2^(h+1) = 2^(k-(h+1)) + m' / 2^(h+1) := div_add_pow hk
+        have e4 : 2^(k-(h+1)) * 2^(h+1) = 2^k := by rw [← Nat.pow_add]; congr 1; omega
+        have e5 : (2^(k-(h+1)) + m' / 2^(h+1)) * 2^(h+1) = 2^k + m' / 2^(h+1) * 2^(h+1) := by
+          rw [Nat.add_mul, e4]
+        rw [e3, e5]
+        congr 1; omega
+    · simp only [hb, decide_false, Bool.false_eq_true, if_false]
+      rw [hA]
+      exact ih (2*a) m (by omega)
+
+theorem forest_bits (n : Nat) :
+    forest n = ((List.range n).reverse.filter (bitSet n)).map
+      (fun h => (n / 2^(h+1) * 2^(h+1) + 2^h - 1, h)) := by
+  have := forestFrom_bits n 0 n Nat.lt_two_pow_self
+  simpa [forest] using this
+
 /-! ### The same list from the low end (stack order) -/
 
 /-- peaks for the bits of `m`, where bit 0 of `m` stands for height `j` -/
